@@ -126,6 +126,17 @@ CLAIMED["C03"] = dict(
     note="The structural part is decided per explored path; the solver content is the constant dimension (which rewrites fire, which exceptions are reachable) and path feasibility. Trusted: the re-check in props/_passes.py, the engine. Outside: modules beyond the two stated families; pass sequences other than the listed ones.",
     technique=TECH)
 
+CLAIMED["C01"] = dict(
+    level="translation_validation", design="§4 C01",
+    text="For every program of a stated finite family of C programs (quick: 822 on x86_64 type sizes; thorough: ~16000 on x86_64/arm/msp430/riscv) the IR produced by the real c_to_ir is proven equal to an independent ISO-C11 reference semantics (ref/csem_prog.py): same return value, final global / pointed-to memory and external call trace, on every execution path, for ALL argument values, initial memory bytes and external results for which the C program has defined behaviour. The family covers every binary/unary operator and conversion over all 11 integer types (all type pairs in thorough), ?:, sampled depth-2/3 expressions and statement templates: control flow, switch, compound assignment, ++/--, arrays, structs, pointers, calls, externals.",
+    note="Translation validation per program, not a proof about the front end: the program dimension is a finite template family (depth <= 3, loops masked to <= 3-4 iterations, 24-iteration / 400-instruction bound with zero cut paths); the value dimension is complete and decided by z3. The C oracle is validated against gcc -fsanitize=undefined on 2273 concrete points at build time (LP64). Implementation-defined choices (two's-complement wrap on signed narrowing, arithmetic >>, signed char, natural alignment) are assumptions. Outside: floats, bit-fields, unions, enums, goto, varargs, function pointers, string literals, constant-expression initialisers (C27), big-endian targets, avr.",
+    technique=TECH_TV)
+CLAIMED["C36"] = dict(
+    level="translation_validation", design="§4 C36",
+    text="The REAL Python front end (python_to_ir) compiles every program of a stated family of type-annotated integer functions (149 enumerated shapes: + - * //, all comparisons, and/or, if/elif/else, while, for-over-range with break/continue/early return, nested loops, loop-variable uses, (augmented/tuple) assignment, calls between two functions; plus 110 / 1400 seeded random programs, nesting depth <= 2). The produced IR, executed by ref/irsem.py on symbolic 64-bit arguments, is compared with the SAME source executed by CPython itself on symbolic integer proxies: on every path and for all argument values the solver shows that the module is well-formed, the IR execution is defined and returns exactly what CPython returns, under the premise that every integer value stays within 64 bits.",
+    note="Trusted: z3, ref/irsem.py, ref/pyoracle.py (operator routing, 64-bit premise, lazy range), the engine (every path re-executed concretely with real ints). Arguments range over all of i64 except parameters that influence loop trip counts or in-loop conditions ([-2,5] quick, [-3,6] thorough); unwinding 4000/8000 IR instructions (no cut paths). Outside: floats, str, constructs ppci rejects with CompilerError (%, unary minus, not, range step), paths on which CPython raises, back ends.",
+    technique=TECH_TV)
+
 NOT_APPLICABLE = {
     "C04": "property is about native execution of whole gcc/ppci-compiled programs; no x86-64 semantics model is in reach and running binaries is enumeration of concrete runs, not solver-based checking",
     "C06": "dataflow property over uninterpreted instruction semantics: a checker would be tag propagation in which a solver decides nothing",
